@@ -9,6 +9,7 @@ MC+GEN spec/NumpyIndex + spec/gen/Gen_C04:
  the same state is used as an assignment test (last key as write target).
 """
 import json
+import os
 import numpy as np
 
 from harness import core, tlc, samples
@@ -315,6 +316,54 @@ def replay_sim(chk, runner, res):
             chk.traces += 1
 
 
+SWITCH_SCRIPT = """
+import sys, json, warnings
+warnings.simplefilter('ignore')
+import numpy as np
+from harness import samples
+d = samples.load_base(4, 3)
+out = {}
+for e in json.loads(sys.argv[1]):
+    try:
+        x = eval(e)
+        out[e] = samples.project(x) if isinstance(x, np.ndarray) else repr(x)
+    except Exception as ex:
+        out[e] = 'raises'
+print('OUT=' + json.dumps(out, default=str, sort_keys=True))
+"""
+
+
+def interpreter_switches(chk):
+    """Keys of the 'other forms' (booleans where a channel is expected, ...) are refused - or aligned - whatever the
+    interpreter's switches: the same expressions are evaluated in a child `python` and a child `python -O` (assert
+    statements compiled away); the outcomes must be the same (those of the plain interpreter are what the scenarios
+    above were judged on)."""
+    import subprocess
+    import sys
+    exprs = ['d[:, True]', 'd[:, False]', 'd[:, [True, False, True]]', 'd[:, [False, True, True]]', 'd[0:2, [True, True, False]]',
+             'd[:, (True, False, False)]', 'd[:, [True]]', 'd[1, True]', 'd[[0, 1], True]', 'd[:, np.bool_(True)]', 'd[:, [0, True]]',
+             'd[:, [samples.name(1), False]]', 'd.resolution(True)', 'd.range(False)', 'd.amplification_type([True, False])',
+             'd.channel_labels(True)', 'd[:, 1.0]', 'd[:, None]', 'd[:, [None]]', 'd[:, 3]', 'd[:, -4]', 'd[:, "zz"]', 'd[:, [0, "zz"]]',
+             'd[:, {0}]', 'd[:, b"c0"]']
+    outs = {}
+    for flag in ('plain', '-O'):
+        env = dict(os.environ, PYTHONPATH=os.pathsep.join([core.VERIF, core.REPO]))
+        env.pop('PYTHONOPTIMIZE', None)
+        cmd = [sys.executable] + (['-O'] if flag == '-O' else []) + ['-c', SWITCH_SCRIPT, json.dumps(exprs)]
+        pr = subprocess.run(cmd, env=env, stdout=subprocess.PIPE, stderr=subprocess.PIPE, universal_newlines=True, timeout=600)
+        m = [ln for ln in pr.stdout.splitlines() if ln.startswith('OUT=')]
+        if pr.returncode != 0 or not m:
+            raise tlc.MachineryError('interpreter_switches (%s): %s' % (flag, pr.stderr[-600:]))
+        outs[flag] = json.loads(m[0][4:])
+    for e in exprs:
+        chk.case(('switch', e), nontrivial=True)
+        chk.traces += 1
+        if outs['plain'][e] != outs['-O'][e]:
+            chk.violation('C04/other-form-depends-on-the-interpreter-switches', {'expression': e, 'interpreter': 'python -O'},
+                          outs['plain'][e], outs['-O'][e])
+    chk.extra['expressions_repeated_under_python_O'] = len(exprs)
+
+
 def main(chk, replay=None):
     chk.rule = ('GEN: every (row key x column key) of the C04 grammar on small shapes, all chains of two keys '
                 'from a reduced menu, sampled chains of three; each also as an assignment target. non-trivial = '
@@ -343,6 +392,7 @@ def main(chk, replay=None):
         replay_sim(chk, runner, resC)
         chk.extra['spec_vs_plain_ndarray_agreements'] = chk.extra.get('spec_vs_plain_ndarray_agreements', 0) + runner.spec_vs_numpy
     from harness import session
+    interpreter_switches(chk)
     session.run(chk, 'C04')          # spec/Session.tla: the property inside whole analysis sessions
     chk.exhaustive = True
 
